@@ -1,12 +1,12 @@
 CONSTANTS
   Keys = {1, 2, 3}
   Prios = {1, 2}
-  MaxMut = 4
-  NSnap = 2
+  MaxMut = 3
+  NSnap = 1
   NReader = 1
   FixClose = 2
-  MaxVer = 9
-  AllowFail = FALSE
+  MaxVer = 7
+  AllowFail = TRUE
   FixFail = TRUE
   QuiescentClose = FALSE
 SPECIFICATION Spec
